@@ -3,6 +3,7 @@ package rules
 import (
 	"fmt"
 	"go/types"
+	"regexp"
 	"sort"
 	"strings"
 
@@ -34,7 +35,7 @@ type Effect struct {
 	// ConsumesPeeked: counts as consuming the peeked input for the
 	// success-consumes rule (e.g. a pop of the queue the input came from).
 	ConsumesPeeked bool
-	Match   func(n *core.Node) bool
+	Match          func(n *core.Node) bool
 }
 
 type ProtoCfg struct {
@@ -45,8 +46,14 @@ type ProtoCfg struct {
 	// actions in that function, each with a reason.
 	Exempt map[string]string
 	// SkipRoots: functions that only sequence independent handlers.
-	SkipRoots map[string]string
+	SkipRoots  map[string]string
 	FloorSends int
+	// ExtraPeek: other ways a handler looks at its input without consuming it
+	// (e.g. sim.Buffer.Peek); returns the name of the input.
+	ExtraPeek func(n *core.Node) (string, bool)
+	// OnlyFuncs restricts reporting to Sends / effects inside functions whose
+	// name satisfies the predicate (a package may host several components).
+	OnlyFuncs func(name string) bool
 }
 
 type sendSite struct {
@@ -145,7 +152,12 @@ func RunProto(c *core.Ctx, cfg *ProtoCfg) protoResult {
 				n := &core.Node{Instr: in, Block: b, Frame: &core.Frame{Fn: fn}}
 				if isSend(n) || isPeek(n) {
 					direct[fn] = true
-				} else if _, ok := cfg.effectOf(n); ok {
+				} else if cfg.ExtraPeek != nil {
+					if _, ok := cfg.ExtraPeek(n); ok {
+						direct[fn] = true
+					}
+				}
+				if _, ok := cfg.effectOf(n); ok {
 					direct[fn] = true
 				}
 				if call, ok := in.(*ssa.Call); ok {
@@ -183,6 +195,9 @@ func RunProto(c *core.Ctx, cfg *ProtoCfg) protoResult {
 		}
 		name := core.FuncName(fn)
 		if _, skip := cfg.SkipRoots[name]; skip {
+			continue
+		}
+		if cfg.OnlyFuncs != nil && !cfg.OnlyFuncs(name) {
 			continue
 		}
 		c.MarkAnalysed(fn)
@@ -232,6 +247,9 @@ func RunProto(c *core.Ctx, cfg *ProtoCfg) protoResult {
 			if canSendGuard {
 				continue
 			}
+			if refs := sv.Referrers(); refs == nil || len(*refs) == 0 {
+				continue // reported once as send.unchecked
+			}
 			// failure walk
 			failReach, ok := g.Reach(core.After(s, core.FactFor(s, sv, 1)), core.WalkOpts{ForwardOnly: true})
 			if !ok {
@@ -259,11 +277,22 @@ func RunProto(c *core.Ctx, cfg *ProtoCfg) protoResult {
 		// success-consumes: a handler that peeked its input at port P and sent
 		// successfully must consume that input before returning, otherwise the
 		// same input is handled again (duplicate output)
-		for _, k := range g.NodesWhere(isPeek) {
-			if k.Frame.Parent != nil && false {
-				continue
+		for _, k := range g.NodesWhere(func(n *core.Node) bool {
+			if isPeek(n) {
+				return true
 			}
-			inPort := portOfCall(k.Instr)
+			if cfg.ExtraPeek != nil {
+				_, ok := cfg.ExtraPeek(n)
+				return ok
+			}
+			return false
+		}) {
+			inPort := ""
+			if isPeek(k) {
+				inPort = portOfCall(k.Instr)
+			} else {
+				inPort, _ = cfg.ExtraPeek(k)
+			}
 			afterPeek, _ := g.Reach(core.After(k, nil), core.WalkOpts{ForwardOnly: true})
 			var retrievesOnIn []*core.Node
 			for _, r := range g.NodesWhere(isRetrieve) {
@@ -327,6 +356,9 @@ func RunProto(c *core.Ctx, cfg *ProtoCfg) protoResult {
 			}
 			after, _ := g.Reach(core.After(e, nil), core.WalkOpts{ForwardOnly: true})
 			for _, s := range sends {
+				if refs := s.Instr.(ssa.Value).Referrers(); refs == nil || len(*refs) == 0 {
+					continue // a discarded result is reported once as send.unchecked
+				}
 				stPre.Instances++
 				bad := after[s]
 				if bad {
@@ -407,6 +439,116 @@ func DebugProv(c *core.Ctx, pkgs []string) {
 							fmt.Printf("%s: store %s := %s   [base %s]\n", core.FuncName(fn), core.ShortFieldID(f), prov.Of(st.Val), prov.Of(st.Addr.(*ssa.FieldAddr).X))
 						}
 					}
+				}
+			}
+		}
+	}
+}
+
+// isInOrderFilter: pv describes a slice that starts empty and is only ever
+// extended, in iteration order, by the current element of listExpr.
+func isInOrderFilter(pv, listExpr string) bool {
+	elem := regexp.QuoteMeta(listExpr) + `\[[^\[\]]*(\[[^\[\]]*\])?[^\[\]]*\]`
+	s := regexp.MustCompile(`append\(@,\[&?`+elem+`\]\)`).ReplaceAllString(pv, "A")
+	s = strings.ReplaceAll(s, "make(slice)", "E")
+	s = strings.ReplaceAll(s, "iter(", "(")
+	if !strings.Contains(s, "A") || !strings.Contains(s, "E") {
+		return false
+	}
+	return regexp.MustCompile(`^[(){}|@AE]*$`).MatchString(s)
+}
+
+// CheckRetryLists decides the retry-list idiom: a Send whose message is an
+// element of a slice field L must, on failure, keep exactly that element in
+// the list that replaces L, and on success must not keep it.
+func CheckRetryLists(c *core.Ctx, p *PkgInfo, rule string, floor int) {
+	st := c.Rule(rule, "retry lists: a message taken from a pending list is, on a failed Send, appended to the list that replaces the pending list (same element), on a successful Send it is not; the replacement list is an in-order filter of the pending list", floor)
+	prov := core.NewProv(c)
+	for _, fn := range p.Funcs {
+		var g *core.Graph
+		for _, b := range fn.Blocks {
+			for _, in := range b.Instrs {
+				if !core.IsPortMethod(in, "Send") {
+					continue
+				}
+				msg := prov.Of(core.CallOf(in).Args[0])
+				m := regexp.MustCompile(`^(recv\.\w+)\[.*\]$`).FindStringSubmatch(msg)
+				if m == nil {
+					continue
+				}
+				list := m[1]
+				if g == nil {
+					g = core.BuildGraph(fn, 0, nil)
+				}
+				c.MarkAnalysed(fn)
+				st.Instances++
+				var s *core.Node
+				for _, n := range g.Nodes {
+					if n.Instr == in {
+						s = n
+					}
+				}
+				isKeep := func(n *core.Node) bool {
+					call, ok := n.Instr.(*ssa.Call)
+					if !ok || !core.IsBuiltin(call, "append") || len(call.Call.Args) < 2 {
+						return false
+					}
+					return prov.Of(call.Call.Args[1]) == "["+msg+"]"
+				}
+				sv := in.(ssa.Value)
+				lost := false
+				g.Walk(core.After(s, core.FactFor(s, sv, 1)), core.WalkOpts{ForwardOnly: true, Stop: isKeep}, func(x core.State) {
+					if isKeep(x.N) {
+						return
+					}
+					if _, ok := x.N.Instr.(*ssa.Return); ok {
+						lost = true
+					}
+					for _, sc := range x.N.Succs {
+						if g.IsBack(x.N, sc) {
+							lost = true
+						}
+					}
+					if f := writtenField(x.N.Instr); f != nil && "recv."+f.Name() == list {
+						lost = true
+					}
+				})
+				st.Ob(!lost)
+				port := portOfCall(in)
+				if lost {
+					c.ReportAt(rule, fn, in.Pos(), "Send:"+port+":lost-on-failure", "when Send on "+port+" fails the message "+msg+" is not kept in the retry list: it is lost under back-pressure")
+				}
+				dup := false
+				g.Walk(core.After(s, core.FactFor(s, sv, -1)), core.WalkOpts{ForwardOnly: true}, func(x core.State) {
+					if isKeep(x.N) {
+						dup = true
+					}
+				})
+				st.Ob(!dup)
+				if dup {
+					c.ReportAt(rule, fn, in.Pos(), "Send:"+port+":kept-on-success", "after a successful Send on "+port+" the message "+msg+" is still kept in the retry list: it is sent twice")
+				}
+				// the replacement
+				found := false
+				for _, b2 := range fn.Blocks {
+					for _, in2 := range b2.Instrs {
+						if f := writtenField(in2); f != nil && "recv."+f.Name() == list {
+							if s2, ok := in2.(*ssa.Store); ok {
+								found = true
+								pv := prov.Of(s2.Val)
+								ok2 := isInOrderFilter(pv, list)
+								st.Ob(ok2)
+								st.Sample("%s: Send(%s) on %s; %s := %s", core.FuncName(fn), msg, port, list, short(pv))
+								if !ok2 {
+									c.ReportAt(rule, fn, in2.Pos(), list+":replacement", "the pending list is replaced by "+short(pv)+", not by the in-order list of messages whose Send failed")
+								}
+							}
+						}
+					}
+				}
+				st.Ob(found)
+				if !found {
+					c.ReportAt(rule, fn, in.Pos(), list+":never-replaced", "messages of "+list+" are sent but the list is never replaced: every message is sent again on the next tick")
 				}
 			}
 		}
